@@ -3536,10 +3536,11 @@ class NonTensorStack(LazyStackedTensorDict):
 
     def maybe_to_stack(self):
         """Placeholder for interchangeability between stack and non-stack of non-tensors."""
-        return type(self)(
-            *[ntd.maybe_to_stack() for ntd in self.tensordicts],
-            stack_dim=self.stack_dim,
-        )
+        tensordicts = [ntd.maybe_to_stack() for ntd in self.tensordicts]
+        if all(new is old for new, old in zip(tensordicts, self.tensordicts)):
+            # every member already is a stack (or has no batch dims): nothing to convert
+            return self
+        return type(self)(*tensordicts, stack_dim=self.stack_dim)
 
     @classmethod
     def from_list(cls, non_tensors: List[Any]):
